@@ -290,9 +290,7 @@ func check(prop, tier string) int {
 				}
 			}
 		}
-		for run, h := range sr.RunHashes {
-			hashAll ^= core.SplitMix64(h ^ uint64(run)*0x9e3779b97f4a7c15)
-		}
+		hashAll ^= sr.HashAll
 		if err := core.ReadDistinct(outs[k]+".distinct", distinct); err != nil {
 			fmt.Fprintln(os.Stderr, "dst:", err)
 			return core.ExitTrouble
@@ -449,6 +447,7 @@ func hashes(prop, tier, runsS string) int {
 	os.Chdir(scratch)
 	ctx := core.NewCtx(prop, tier, envSeed())
 	ctx.Shard, ctx.Shards = envInt("VERIF_SHARD", 0), envInt("VERIF_SHARDS", 1)
+	ctx.KeepRunHashes = true
 	if meta.Setup != nil {
 		if err := meta.Setup(ctx); err != nil {
 			return core.ExitTrouble
